@@ -2659,8 +2659,12 @@ Vinquire(int32  vkey,     /* IN: vgroup key */
         HGOTO_ERROR(DFE_ARGS, FAIL);
 
     /* copy vgroup name if requested.  Assumes 'vgname' has sufficient space */
-    if (vgname != NULL)
-        strcpy(vgname, vg->vgname);
+    if (vgname != NULL) {
+        if (vg->vgname != NULL) /* a vgroup that was never named has no name buffer */
+            strcpy(vgname, vg->vgname);
+        else
+            vgname[0] = '\0';
+    }
 
     /* set number of entries in vgroup if requested */
     if (nentries != NULL)
